@@ -11,8 +11,9 @@ What is transcribed exactly
   * `_can_exe(op, pi, cg)`                      -> `canExe`
   * the effect of every branch of `forward_pass(modify_circuit=True)` on
     (F, pi, mapped_circuit)                     -> `step` (moves exec / swap / unswap)
-  * PAM's forward pass (`pam.py`): barrier branch (appends at the LOGICAL location,
-    as the code does) and block branch (`_apply_perm(p1)`, emit, `_apply_perm(p2)`)
+  * PAM's forward pass (`pam.py`): barrier branch (appends the barrier at
+    `[pi[q] for q in location]`; since the fix 9e5a524 — before, at the logical location) and
+    block branch (`_apply_perm(p1)`, emit, `_apply_perm(p2)`)
                                                 -> moves `pamBarrier`, `perm`
   * `GeneralizedSabreRoutingPass.run`, `GeneralizedSabreLayoutPass.run`,
     `PAMRoutingPass.run`, `PAMLayoutPass.run`, `SetModelPass.run`, `ApplyPlacement.run`,
@@ -90,7 +91,7 @@ inductive Move
   | swap (a b : Nat)
   /-- backtracking: `_apply_swap(swap)` + `mapped_circuit.pop(_rear[swap[0]])` -/
   | unswap (a b : Nat)
-  /-- PAM barrier branch: `mapped_circuit.append_gate(op.gate, op.location)` -/
+  /-- PAM barrier branch: `mapped_circuit.append_gate(op.gate, physical_location)` -/
   | pamBarrier (i : Nat)
   /-- PAM block branch: `_apply_perm(p1)`, append the variant at `[pi[q] for q in location]`,
   `_apply_perm(p2)`.  `s1`, `s2` are ghost data: swap sequences on the block's physical
@@ -138,7 +139,7 @@ def step (free : Nat → Bool) (g : G) (s : St) : Move → Option St
     | none => none
     | some o =>
       if inFront s.rem i && free o.gid then
-        some { rem := removeAt s.rem i, pi := s.pi, out := s.out ++ [.gate o] }
+        some { rem := removeAt s.rem i, pi := s.pi, out := s.out ++ [.gate (relab (piAt s.pi) o)] }
       else none
   | .perm i p1 p2 s1 s2 =>
     match s.rem[i]? with
